@@ -12,7 +12,9 @@ From Coq Require Import List NArith ZArith Bool.
 From Coq.Strings Require Import Byte.
 Require Import GV.Base.Res GV.Base.Byt GV.Base.Ints GV.Model.Leb GV.Model.Prim
                GV.Spec.LebSpec GV.Spec.FormSpec GV.Model.Attr GV.Spec.Forest GV.Model.AbbrevRd
-               GV.Model.DieRd GV.Proofs.AttrProofs GV.Proofs.AbbrevRdProofs GV.Proofs.DieRdProofs GV.Proofs.NavProofs.
+               GV.Model.DieRd GV.Proofs.AttrProofs GV.Proofs.AbbrevRdProofs GV.Proofs.DieRdProofs GV.Proofs.NavProofs
+               GV.Spec.ForestSel GV.Model.TreeWalk GV.Proofs.TreeWalkProofs GV.Proofs.CursorWalkProofs
+               GV.Proofs.SibBadProofs.
 Import ListNotations.
 Local Open Scope N_scope.
 
@@ -306,6 +308,186 @@ Example entry_at_offset_ex :
 Proof. split; [vm_compute; tauto|reflexivity]. Qed.
 
 (* ------------------------------------------------------------------ *)
+(* (6b) PARTIAL traversals with the tree iterator. A selection strategy `sel` (Spec/ForestSel.v) is
+        asked at every entry the caller visits: None = children() is not called; Some n = the caller
+        calls EntriesTreeIter::next until n children have been returned (or the list ends) and then
+        goes back to the enclosing list. For EVERY strategy, from EVERY entry (o, t) of the unit, the
+        recursion of Model/TreeWalk.v reports exactly the selected sub-forest of Spec/ForestSel.v —
+        offsets, depths, tags, attribute values: children()/next() at any node return that node's
+        children in order whatever subtrees were skipped (DW_AT_sibling fast path or scanning) or left
+        half-visited before. Same hypotheses as tree_is_forest: any code assignment, DW_AT_sibling on
+        any subset of the entries, null padding. Key lemma: TreeWalkProofs.loop_skip. *)
+
+Theorem tree_any_walk : forall dbg bigend types uoff h codes f pad tbl (sel : strategy) o t,
+  let e := mkEnc (uh_version h) (uh_fmt64 h) (uh_asize h) bigend in
+  let body := enc_forest codes bigend (header_len h) f pad in
+  let hdr := mkUnit e (unit_length_of bigend h (nlen body)) (uh_type h) (uh_abbrev_off h) types uoff body in
+  addr_size_ok e -> header_len h + nlen body < two63 ->
+  Forall (fun t => tbl_get tbl (t_code codes t) = Some (t_abbrev codes t)) (forest_nodes f) ->
+  forest_ok codes e f -> sibs_fit codes (header_len h) f ->
+  In (o, t) (on_list (placed codes) (tree_size codes) (header_len h) f) ->
+  exists ts, entries_tree dbg hdr (Some o) = Ok ts /\
+             walk_tree_plan dbg e tbl sel ts = Ok (sel_tree codes sel 0 o t, None).
+Proof.
+  intros dbg bigend types uoff h codes f pad tbl sel o t e body hdr He Hlen Hc Hok Hfit Hin.
+  exact (TreeWalkProofs.tree_any_walk dbg bigend types uoff h codes f pad tbl He Hlen Hc Hok Hfit sel o t Hin).
+Qed.
+
+(* the unit of forest_ex meets the hypotheses (forest_ex); a strategy that visits two of the three
+   children of the root and does not descend into them; selecting everything is the preorder *)
+Example tree_any_walk_ex :
+  let sel : strategy := fun d => if d_offset d =? 11 then Some 2%nat else None in
+  In (11, ex_root) (on_list (placed ex_codes) (tree_size ex_codes) (header_len ex_header) ex_forest) /\
+  map (fun d => (d_offset d, d_depth d, d_tag d)) (sel_tree ex_codes sel 0 11 ex_root) =
+    [(11, 0%Z, 17); (15, 1%Z, 46); (17, 1%Z, 52)] /\
+  sel_tree ex_codes (fun _ => Some 3%nat) 0 11 ex_root = preorder ex_codes (header_len ex_header) 0 ex_forest.
+Proof. split; [vm_compute; tauto|]. split; vm_compute; reflexivity. Qed.
+
+(* at the root, as the streams call it: entries_tree(None) walks the first top-level entry *)
+Theorem tree_any_walk_root : forall dbg bigend types uoff h codes t f pad tbl (sel : strategy),
+  let e := mkEnc (uh_version h) (uh_fmt64 h) (uh_asize h) bigend in
+  let body := enc_forest codes bigend (header_len h) (t :: f) pad in
+  let hdr := mkUnit e (unit_length_of bigend h (nlen body)) (uh_type h) (uh_abbrev_off h) types uoff body in
+  addr_size_ok e -> header_len h + nlen body < two63 ->
+  Forall (fun t => tbl_get tbl (t_code codes t) = Some (t_abbrev codes t)) (forest_nodes (t :: f)) ->
+  forest_ok codes e (t :: f) -> sibs_fit codes (header_len h) (t :: f) ->
+  exists ts, entries_tree dbg hdr None = Ok ts /\
+             walk_tree_plan dbg e tbl sel ts = Ok (sel_tree codes sel 0 (header_len h) t, None).
+Proof.
+  intros dbg bigend types uoff h codes t f pad tbl sel e body hdr He Hlen Hc Hok Hfit.
+  exact (CursorWalkProofs.tree_any_walk_root dbg bigend types uoff h codes (t :: f) pad tbl He Hlen Hc Hok Hfit sel t f eq_refl).
+Qed.
+
+(* the shape on which a wrong depth after the fast path shows, run through the MODEL: the root (offset 11)
+   has the children A (12: children, no sibling pointer) and a leaf (18); A's child X (13) has a child and a
+   DW_AT_sibling (= 17). The strategy does not descend into A, so EntriesTree::next(1) scans A's subtree,
+   jumps from X to 17 — keeping X's depth 2 — reads A's terminator at depth 2, and finds the leaf. (With the
+   caller's depth 1 instead, the terminator at 17 would be taken for the end of the root's list.) *)
+Definition trap_leaf : tree := Node 52 false [] [].
+Definition trap_x : tree := Node 46 false [ISib W1] [trap_leaf].
+Definition trap_a : tree := Node 11 false [] [trap_x].
+Definition trap_root : tree := Node 17 false [] [trap_a; trap_leaf].
+Definition trap_codes : coding := fun tag hc specs => tag.
+Definition trap_sel : strategy := fun d => if d_tag d =? 11 then None else Some 5%nat.
+Definition trap_body : list byte := enc_forest trap_codes false (header_len ex_header) [trap_root] 0.
+
+Example tree_any_walk_trap :
+  trap_body = [x11; x0b; x2e; x11; x34; x00; x00; x34; x00]%byte /\
+  exists tbl ts,
+    parse_abbrevs true (enc_abbrevs (forest_abbrevs trap_codes [trap_root])) = Ok (tbl, []) /\
+    entries_tree true (mkUnit ex_enc (unit_length_of false ex_header (nlen trap_body)) UCompile 0 false 0 trap_body)
+                 (Some 11) = Ok ts /\
+    walk_tree_plan true ex_enc tbl trap_sel ts = Ok (sel_tree trap_codes trap_sel 0 11 trap_root, None) /\
+    map (fun d => (d_offset d, d_depth d, d_tag d)) (sel_tree trap_codes trap_sel 0 11 trap_root) =
+      [(11, 0%Z, 17); (12, 1%Z, 11); (18, 1%Z, 52)].
+Proof.
+  split; [vm_compute; reflexivity|]. eexists. eexists.
+  split; [vm_compute; reflexivity|]. split; [vm_compute; reflexivity|]. split; vm_compute; reflexivity.
+Qed.
+
+(* (6c) the same for the cloned-cursor recursion (clone the cursor on an entry, next_entry to its
+        first child, next_sibling along the child list — Model/TreeWalk.v cwalk_list): for EVERY strategy
+        and every budget n of top-level entries the entries visited are the selected sub-forest of the
+        unit's forest. Every next_sibling in it starts on an entry whose subtree holds any mixture of
+        entries with and without DW_AT_sibling and lands on the root entry of the following sibling, or
+        returns None at the list terminator / the end of the unit (CursorWalkProofs.next_sibling_next /
+        next_sibling_end over NavProofs.skip_tree). *)
+Theorem cursor_walk : forall dbg bigend types uoff h codes f pad tbl (sel : strategy) n,
+  let e := mkEnc (uh_version h) (uh_fmt64 h) (uh_asize h) bigend in
+  let body := enc_forest codes bigend (header_len h) f pad in
+  let hdr := mkUnit e (unit_length_of bigend h (nlen body)) (uh_type h) (uh_abbrev_off h) types uoff body in
+  addr_size_ok e -> header_len h + nlen body < two63 ->
+  Forall (fun t => tbl_get tbl (t_code codes t) = Some (t_abbrev codes t)) (forest_nodes f) ->
+  forest_ok codes e f -> sibs_fit codes (header_len h) f ->
+  exists c, entries dbg hdr = Ok c /\
+            walk_cursor dbg e tbl sel n c = Ok (sel_list codes sel 0 (header_len h) n f, None).
+Proof.
+  intros dbg bigend types uoff h codes f pad tbl sel n e body hdr He Hlen Hc Hok Hfit.
+  exact (CursorWalkProofs.cursor_walk dbg bigend types uoff h codes f pad tbl He Hlen Hc Hok Hfit sel n).
+Qed.
+
+Example cursor_walk_ex :
+  let sel : strategy := fun d => if d_offset d =? 11 then Some 2%nat else None in
+  map (fun d => (d_offset d, d_depth d, d_tag d)) (sel_list ex_codes sel 0 (header_len ex_header) 5 ex_forest) =
+    [(11, 0%Z, 17); (15, 1%Z, 46); (17, 1%Z, 52)] /\
+  sel_list ex_codes (fun _ => Some 3%nat) 0 (header_len ex_header) 1 ex_forest =
+    preorder ex_codes (header_len ex_header) 0 ex_forest.
+Proof. split; vm_compute; reflexivity. Qed.
+
+(* (6d) malformed DW_AT_sibling values, for EVERY reader state and EVERY entry (no well-formedness):
+        the attribute is consulted only by the fast path DieRd.sibling_jump at the top of the loops of
+        next_sibling and EntriesTree::next. It is IGNORED (the reader is left untouched, so the
+        iteration is the scanning one: tree_loop_ignored / sibling_loop_ignored) when the entry has no
+        children, the attribute is missing, its normalised value is not a unit reference (DW_FORM_data*,
+        udata, ref_addr, sec_offset, ...), the reference is backward or the entry's own offset, it points
+        before the reader (into the entry's own bytes), or beyond the end of the unit. EVERY other value
+        — a unit reference after the entry, at or after the reader, up to and including the end of the
+        unit — is BELIEVED: the reader moves there with the entry's depth (a forward offset into the
+        middle of the subtree, into the middle of an entry, past the true sibling, or exactly the end of
+        the unit changes what the traversal reports; only the value enc_forest writes is correct). The two
+        classes are complementary. Lifting the ignored class to whole traversals of an encoder that
+        writes wrong values is not done (correspondence: c02.nav). *)
+Theorem bad_sibling_ignored : forall dbg r cur,
+  nlen (r_in r) <= r_end r ->
+  (SibBadProofs.sib_ignored r cur -> sibling_jump dbg r cur = Ok r) /\
+  (forall o, d_children cur = true -> die_attr_value cur DW_AT_sibling = Some (VUnitRef o) -> d_offset cur < o ->
+     r_end r - nlen (r_in r) <= o <= r_end r ->
+     sibling_jump dbg r cur =
+     Ok (mkRaw (skipn (N.to_nat (o - (r_end r - nlen (r_in r)))) (r_in r)) (r_end r) (d_depth cur))) /\
+  (SibBadProofs.sib_ignored r cur \/
+   exists o, d_children cur = true /\ die_attr_value cur DW_AT_sibling = Some (VUnitRef o) /\ d_offset cur < o /\
+             r_end r - nlen (r_in r) <= o <= r_end r).
+Proof.
+  intros dbg r cur Hle. split; [exact (SibBadProofs.bad_sibling_ignored dbg r cur Hle)|].
+  split; [intros o; exact (SibBadProofs.sibling_believed dbg r cur o Hle)|exact (SibBadProofs.sibling_classes r cur Hle)].
+Qed.
+
+Theorem bad_sibling_loops : forall k dbg e tbl,
+  (forall depth t, nlen (r_in (tr_raw t)) <= r_end (tr_raw t) -> SibBadProofs.sib_ignored (tr_raw t) (tr_entry t) ->
+     tree_next_loop (S k) dbg e tbl depth t =
+     if raw_is_empty (tr_raw t) then Ok (TOk false (mkTree (tr_root t) (tr_raw t) (set_null (tr_entry t)))) else
+     match read_entry dbg e tbl (tr_raw t) with
+     | Ok (ok, d, r2) =>
+         if (d_depth d =? depth)%Z then Ok (TOk ok (mkTree (tr_root t) r2 d))
+         else tree_next_loop k dbg e tbl depth (mkTree (tr_root t) r2 d)
+     | Err x => tree_fail dbg (mkTree (tr_root t) (tr_raw t) (tr_entry t)) x
+     | Panic => Panic
+     | OutOfFuel => OutOfFuel
+     end) /\
+  (forall T c, nlen (r_in (c_raw c)) <= r_end (c_raw c) -> SibBadProofs.sib_ignored (c_raw c) (c_cur c) ->
+     sibling_loop (S k) dbg e tbl T c =
+     let* s := next_entry dbg e tbl c in
+     match s with
+     | SErr x c' => Ok (SErr x c')
+     | SOk false c' => Ok (SOk None c')
+     | SOk true c' =>
+         if (d_depth (c_cur c') =? T)%Z then Ok (SOk (current c') c') else sibling_loop k dbg e tbl T c'
+     end).
+Proof.
+  intros k dbg e tbl. split.
+  - intros depth t. exact (SibBadProofs.tree_loop_ignored k dbg e tbl depth t).
+  - intros T c. exact (SibBadProofs.sibling_loop_ignored k dbg e tbl T c).
+Qed.
+
+(* an entry at offset 20 with children, the reader at offset 24 of a unit ending at 40: a DW_FORM_ref4
+   sibling value 20 (self), 22 (inside the entry), 41 (out of range) and a DW_FORM_data4 value are
+   ignored; 30 is believed *)
+Example bad_sibling_ex :
+  let r := mkRaw (repeat x00 16) 40 3 in
+  let ent v := mkDie 20 2 17 true [(mkSpec 1 19 0, v)] in
+  SibBadProofs.sib_ignored r (ent (VUnitRef 20)) /\ SibBadProofs.sib_ignored r (ent (VUnitRef 22)) /\
+  SibBadProofs.sib_ignored r (ent (VUnitRef 41)) /\ SibBadProofs.sib_ignored r (ent (VData4 30)) /\
+  sibling_jump true r (ent (VUnitRef 30)) = Ok (mkRaw (repeat x00 10) 40 2).
+Proof.
+  cbv zeta. unfold SibBadProofs.sib_ignored.
+  split; [right; vm_compute; left; discriminate|].
+  split; [right; vm_compute; right; left; reflexivity|].
+  split; [right; vm_compute; right; right; reflexivity|].
+  split; [right; vm_compute; exact I|].
+  vm_compute. reflexivity.
+Qed.
+
+(* ------------------------------------------------------------------ *)
 (* (7) no step panics or exhausts the model's fuel, on ANY input, in both build modes (feeds C01).
        NavProofs.cursor_ok / tree_ok is the reader invariant "remaining input <= end offset, and
        |depth| + remaining input < 2^63"; every cursor the API creates over a slice shorter than
@@ -359,6 +541,25 @@ Proof.
 Qed.
 
 (* statement pins *)
+Check cursor_walk : forall dbg bigend types uoff h codes f pad tbl (sel : die -> option nat) n,
+  let e := mkEnc (uh_version h) (uh_fmt64 h) (uh_asize h) bigend in
+  let body := enc_forest codes bigend (header_len h) f pad in
+  let hdr := mkUnit e (unit_length_of bigend h (nlen body)) (uh_type h) (uh_abbrev_off h) types uoff body in
+  addr_size_ok e -> header_len h + nlen body < two63 ->
+  Forall (fun t => tbl_get tbl (t_code codes t) = Some (t_abbrev codes t)) (forest_nodes f) ->
+  forest_ok codes e f -> sibs_fit codes (header_len h) f ->
+  exists c, entries dbg hdr = Ok c /\
+            walk_cursor dbg e tbl sel n c = Ok (sel_list codes sel 0 (header_len h) n f, None).
+Check tree_any_walk : forall dbg bigend types uoff h codes f pad tbl (sel : die -> option nat) o t,
+  let e := mkEnc (uh_version h) (uh_fmt64 h) (uh_asize h) bigend in
+  let body := enc_forest codes bigend (header_len h) f pad in
+  let hdr := mkUnit e (unit_length_of bigend h (nlen body)) (uh_type h) (uh_abbrev_off h) types uoff body in
+  addr_size_ok e -> header_len h + nlen body < two63 ->
+  Forall (fun t => tbl_get tbl (t_code codes t) = Some (t_abbrev codes t)) (forest_nodes f) ->
+  forest_ok codes e f -> sibs_fit codes (header_len h) f ->
+  In (o, t) (on_list (placed codes) (tree_size codes) (header_len h) f) ->
+  exists ts, entries_tree dbg hdr (Some o) = Ok ts /\
+             walk_tree_plan dbg e tbl sel ts = Ok (sel_tree codes sel 0 o t, None).
 Check abbrev_dup_rejected : forall dbg ds rest,
   Forall abbrev_ok ds -> ~ NoDup (map ab_code ds) ->
   parse_abbrevs dbg (enc_decls ds ++ rest) = Err EDuplicateAbbreviationCode.
